@@ -15,7 +15,9 @@ RULE = ('TLC checks the snapshot discipline transcribed from rdb.rs (spec/impl/I
         'writes, write failures and crashes: Complete, PerKey, FlagSound, OwnTemp (the pinned design violates three of them). '
         '(i) fault enumeration: every n-th raw write of a save is made to fail (hook H7) — the reply must be an error, the dump '
         'bytes must equal the previous completed dump, a following SAVE must succeed and restart must load the old data; the '
-        'same for a BGSAVE whose thread fails, and for a process killed while a BGSAVE is parked at a sync point. (ii) schedules: '
+        'same for a BGSAVE whose thread fails, and for a process killed while a BGSAVE is parked at a sync point; and with the operating system '
+        'refusing the write instead (the process\' RLIMIT_FSIZE lowered to L bytes for L at block boundaries and the last bytes of the dump, so that '
+        'buffered blocks, the final flush or a synced tail fail with EFBIG). (ii) schedules: '
         'a BGSAVE is parked at each per-key step (before get / after get / after ttl / after the sorted-set length) while a client '
         'grows, shrinks, deletes, replaces or re-deadlines that key, then released; SAVE racing a parked BGSAVE; the produced dump '
         'is loaded by restarting on it and the dataset is dumped; the spec keeps for every key the entries it held during the '
@@ -110,6 +112,76 @@ def fault_enumeration(ctx):
         tr.emit({'k': 'crash', 'status': srv.exit_status()})
     s.close_all()
     ctx.validate(tr, label='fault-enumeration')
+    srv.kill()
+    return cases
+
+
+# -- (i') failure of a REAL write: the file-size limit of the server process is lowered ---------------------
+def fsize_faults(ctx):
+    """The n-th write of hook H7 fails inside the RDB writer; here the operating system refuses the write instead: the
+    process' RLIMIT_FSIZE is set to L bytes (SIGXFSZ ignored), so whichever write — a buffered block, the final flush,
+    an fsync'ed tail — would take the temporary file beyond L fails with EFBIG.  L ranges over block boundaries and the
+    last bytes of the dump.  Every such SAVE / BGSAVE must answer an error (BGSAVE: clear its flag), leave the previous
+    dump byte for byte, and a save after the limit is lifted must work."""
+    import resource
+    import resp as R
+    srv = ctx.new_server(name='fsize', quiet=True)
+    tr = ctx.new_trace('fsize')
+    s = Session(srv, tr, reply_timeout=15.0)
+    dump = os.path.join(srv.dir, 'dump.rdb')
+    cases = 0
+    soft0, hard0 = resource.prlimit(srv.proc.pid, resource.RLIMIT_FSIZE)
+    def limit(n):
+        resource.prlimit(srv.proc.pid, resource.RLIMIT_FSIZE, (n if n is not None else hard0, hard0))
+    try:
+        c = s.open()
+        for a in small_dataset():
+            s.cmd(c, a)
+        for i in range(0, 36, 6):        # several 8 KiB blocks of buffered output
+            s.cmd(c, [b'MSET'] + [x for j in range(i, i + 6) for x in (b'pad:%02d' % j, bytes([65 + j % 26]) * 1000)])
+        s.cmd(c, B('SET', 'after', 'w'))
+        s.cmd(c, [b'SAVE'])
+        good = open(dump, 'rb').read()
+        size = len(good)
+        ctx.extra_cov['fsize_dump_bytes'] = size
+        s.cmd(c, B('SET', 'after', 'x'))        # same dump size, different content
+        limits = sorted(set([0, 1, 9, 100, 4095, 4096, 8191, 8192, 8193, 16384, size // 2, size - 8193, size - 8192, size - 4096, size - 100,
+                             size - 22, size - 9, size - 8, size - 2, size - 1] + ([] if ctx.quick else list(range(0, size, 997)))))
+        limits = [x for x in limits if 0 <= x < size]
+        for L in limits:
+            limit(L)
+            t0 = tr.now()
+            r = s.clients[c].call([b'SAVE'], 15.0)
+            limit(None)
+            tr.emit({'k': 'savefail', 'c': c, 'n': L, 'r': R.to_json(r), 't0': t0, 't1': tr.now() + 1})
+            now = open(dump, 'rb').read() if os.path.exists(dump) else b''
+            tr.emit({'k': 'chk', 'name': 'dump_untouched_after_write_refused_at_%d_of_%d' % (L, size), 'ok': 1 if now == good else 0,
+                     'detail': 'dump has %d bytes, last good %d' % (len(now), len(good))})
+            cases += 1
+            if not srv.alive():
+                raise ServerDied()
+        for L in (0, 8192, size - 9, size - 1):
+            limit(L)
+            s.cmd(c, [b'BGSAVE'])
+            ok = wait_bgsave(srv)
+            limit(None)
+            tr.emit({'k': 'chk', 'name': 'bgsave_flag_cleared_after_refused_write', 'ok': 1 if ok else 0})
+            now = open(dump, 'rb').read() if os.path.exists(dump) else b''
+            tr.emit({'k': 'chk', 'name': 'dump_untouched_after_bgsave_write_refused_at_%d' % L, 'ok': 1 if now == good else 0,
+                     'detail': 'dump has %d bytes, last good %d' % (len(now), len(good))})
+            cases += 1
+        left = [f for f in os.listdir(srv.dir) if f.endswith('.tmp') or '.tmp' in f]
+        tr.emit({'k': 'chk', 'name': 'no_temporary_file_left_behind', 'ok': 0 if left else 1, 'detail': ' '.join(left)[:200]})
+        s.close(c)
+        c = restart_and_dump(ctx, srv, s, tr)      # the old dump is what a restart loads
+        s.cmd(c, B('SET', 'again', '1'))
+        s.cmd(c, [b'SAVE'])                         # a later save works
+        s.close(c)
+        c = restart_and_dump(ctx, srv, s, tr)
+    except ServerDied:
+        tr.emit({'k': 'crash', 'status': srv.exit_status()})
+    s.close_all()
+    ctx.validate(tr, label='fsize-faults')
     srv.kill()
     return cases
 
@@ -313,6 +385,9 @@ def run(ctx):
     # the snapshot discipline transcribed from rdb.rs: every interleaving of save steps, client writes, failures, crashes
     ctx.model_check('ImplBgsave', 'MC_Bgsave_fixed' if ctx.quick else 'MC_Bgsave_fixed_full', workers=12, timeout=1500, subdir='impl')
     n1 = fault_enumeration(ctx)
+    nf = fsize_faults(ctx)
+    ctx.extra_cov['os_level_fault_points'] = nf
+    n1 += nf
     n2 = bgsave_schedules(ctx)
     n3 = corruption(ctx)
     ctx.extra_cov['distinct_cases'] = n1 + n2 + n3
